@@ -1253,6 +1253,93 @@ def replay_dyn_decode(d):
     return _dyn_compare(d, "d", d["bytes"], f"DecodeJson(bytes {bytes(d['bytes']).hex()}) dumped as flat area")
 
 
+_CAN_DYN_MAIN = r"""
+#include <cstdio>
+#include <cstring>
+#include <exception>
+extern "C" void* dyn_load(const char* bin, unsigned long n);
+extern "C" int xcan_enc(void* sp, int which, const unsigned char* args, unsigned char* out);
+extern "C" long xcan_dec(void* sp, const unsigned char* in, char* name_out, unsigned char* area, long* area_n);
+static unsigned long unhex(const char* p, unsigned char* o) { unsigned long n = 0; for (; p[0] && p[1]; p += 2) { unsigned v; sscanf(p, "%2x", &v); o[n++] = (unsigned char)v; } return n; }
+static void __attribute__((noinline)) dirty() { volatile unsigned char a[8192]; for (unsigned i = 0; i < sizeof a; i++) a[i] = 0xAA; }
+int main(int argc, char** argv) {
+    static unsigned char bin[1 << 20], in[65536];
+    unsigned long nb = unhex(argv[2], bin); unhex(argv[4], in);
+    int which = atoi(argv[3]);
+    void* sp = 0;
+    try { sp = dyn_load((const char*)bin, nb); } catch (const std::exception& e) { printf("load=throws %s\n", e.what()); return 0; }
+    printf("load=ok\n");
+    for (int side = 0; side < 2; side++) {
+        const char* tag = side ? "dyn" : "sta";
+        try {
+            if (argv[1][0] == 'e') {
+                unsigned char out[16]; std::memset(out, 0, sizeof out); dirty();
+                int r = xcan_enc(side ? sp : 0, which, in, out);
+                printf("%s=", tag); if (!r) printf("nullopt"); else for (int i = 0; i < 7 + (out[6] > 8 ? 8 : out[6]); i++) printf("%02x", out[i]); printf("\n");
+            } else {
+                char name[256]; unsigned char area[4096]; long an = 0; std::memset(name, 0, sizeof name);
+                long r = xcan_dec(side ? sp : 0, in, name, area, &an);
+                printf("%s=", tag); if (r < 0) printf("unknown"); else { printf("%s:", name); if (argv[1][0] == 'd') for (long i = 0; i < an; i++) printf("%02x", area[i]); } printf("\n");
+            }
+        } catch (const std::exception& e) { printf("%s=throws\n", tag); }
+    }
+    return 0;
+}
+"""
+
+
+def _native_can_dyn(d, mode, which, inbytes, compilers=("clang++-14", "g++")):
+    import os
+
+    from . import cxx
+    from .native import Scratch, run
+
+    sch = _schema(d)
+    sch.impls = []
+    outs = []
+    with Scratch() as dd:
+        if d.get("_primed") and d.get("decoy_text"):
+            from .prime import prime
+            prime(d["decoy_text"], ("cpp",))
+        fcp = cxx.generate_cpp(d["schema_text"], dd)
+        binhex = cxx.reflection_binary(fcp).hex()
+        open(os.path.join(dd, "harness.cpp"), "w").write(cxx.can_dyn_harness_source(sch, d["structs"]))
+        open(os.path.join(dd, "main.cpp"), "w").write("#include <cstdlib>\n" + _CAN_DYN_MAIN)
+        for cc in compilers:
+            rc, so, se = run([cc, "-std=c++17", "-O1", "-w", "-I", dd, "-I", cxx.THIRD_PARTY, "harness.cpp", "main.cpp",
+                              "-o", os.path.join(dd, "a.out")], cwd=dd, timeout=900)
+            if rc:
+                outs.append((cc, "compile-error", se[-600:]))
+                continue
+            rc, so, se = run([os.path.join(dd, "a.out"), mode, binhex, str(which), "".join(f"{b:02x}" for b in inbytes) or "00"], cwd=dd, timeout=60)
+            outs.append((cc, rc, so.strip() if rc == 0 else f"crashed rc={rc} {se[-200:]}"))
+    return outs
+
+
+def _can_dyn_compare(outs, what):
+    for cc, rc, so in outs:
+        if rc == "compile-error":
+            return True, f"does not compile with {cc}: {so[-200:]}"
+        lines = dict(l.split("=", 1) for l in so.splitlines() if "=" in l)
+        if lines.get("load") != "ok" or rc != 0 or "sta" not in lines or "dyn" not in lines:
+            return True, f"{cc}: {so[-300:]}"
+        if lines["sta"] != lines["dyn"]:
+            return True, f"{cc}: {what}: static {lines['sta']} != reflection-loaded {lines['dyn']}"
+    return False, "static and reflection-loaded CAN schemas agree"
+
+
+def replay_can_dyn_encode(d):
+    import json as _json
+
+    return _can_dyn_compare(_native_can_dyn(d, "e", d["which"], d["area"]),
+                            f"Can::Encode({d['structs'][d['which']]!r}, {_json.dumps(d['value'])}) as bus[4] sid[2] dlc data[dlc]")
+
+
+def replay_can_dyn_decode(d):
+    return _can_dyn_compare(_native_can_dyn(d, "n" if d.get("names_only") else "d", 0, d["frame"]),
+                            f"Can::Decode(frame {bytes(d['frame']).hex()})")
+
+
 def replay_cpp_carrier(d):
     import fcp_cpp.generator as G
 
